@@ -29,6 +29,11 @@ fn main() {
     if args.len() < 3 {
         usage();
     }
+    #[cfg(feature = "rq-std")]
+    if args[1] == "C17SEQ" {
+        // the sequential C17 engine runs under the clock interposer (re-executes this process once)
+        c17seq::clock::ensure(&Ctx::from_env("C17", &args[2]).verif_dir);
+    }
     let code = match args[1].as_str() {
         "replay" => {
             let text = std::fs::read_to_string(&args[2]).unwrap_or_else(|e| {
